@@ -43,6 +43,7 @@ type EntrySpec struct {
 }
 
 type UnpackCase struct {
+	Reuse   bool        `json:"reuse,omitempty"` // the Packer value has been used on another tree before
 	Init    *TNode      `json:"init"` // the whole root
 	Dst     string      `json:"dst"`
 	Entries []EntrySpec `json:"entries"`
@@ -163,6 +164,12 @@ func childMain() {
 	if err := json.NewDecoder(os.Stdin).Decode(&req); err != nil {
 		childFail("bad request: " + err.Error())
 	}
+	// a Packer value that has been used before, on another tree (outside the arena, before
+	// the chroot): what one operation learns must not leak into the next
+	var warm *slug.Packer
+	if req.Op == "unpack" && req.Reuse {
+		warm = warmPacker(req.Allow)
+	}
 	enterRoot(&req)
 	resp := &ChildResp{}
 	func() {
@@ -177,7 +184,9 @@ func childMain() {
 		case "unpack":
 			r := &faultReader{r: bytes.NewReader(req.Slug), failAt: req.FailAt, trunc: req.Trunc}
 			var err error
-			if len(req.Allow) > 0 {
+			if warm != nil {
+				err = warm.Unpack(r, req.Dst)
+			} else if len(req.Allow) > 0 {
 				var opts []slug.PackerOption
 				for _, a := range req.Allow {
 					opts = append(opts, slug.AllowSymlinkTarget(a))
@@ -237,6 +246,41 @@ func childMain() {
 	}()
 	b, _ := json.Marshal(resp)
 	os.Stdout.Write(b)
+}
+
+// warmPacker returns a Packer that has already unpacked a small slug with in-tree links
+// into a scratch directory and packed that directory again.
+func warmPacker(allow []string) *slug.Packer {
+	var opts []slug.PackerOption
+	for _, a := range allow {
+		opts = append(opts, slug.AllowSymlinkTarget(a))
+	}
+	p, err := slug.NewPacker(opts...)
+	if err != nil {
+		childFail("warm packer: " + err.Error())
+	}
+	dir, err := os.MkdirTemp("", "verif-warm-")
+	if err != nil {
+		childFail("warm packer: " + err.Error())
+	}
+	defer os.RemoveAll(dir)
+	var buf bytes.Buffer
+	gz := gzip.NewWriter(&buf)
+	tw := tar.NewWriter(gz)
+	tw.WriteHeader(&tar.Header{Name: "d/", Typeflag: tar.TypeDir, Mode: 0o755})
+	tw.WriteHeader(&tar.Header{Name: "d/f", Typeflag: tar.TypeReg, Mode: 0o644, Size: 1})
+	tw.Write([]byte("x"))
+	tw.WriteHeader(&tar.Header{Name: "l", Typeflag: tar.TypeSymlink, Linkname: "d/f", Mode: 0o777})
+	tw.WriteHeader(&tar.Header{Name: "d/up", Typeflag: tar.TypeSymlink, Linkname: "../l", Mode: 0o777})
+	tw.Close()
+	gz.Close()
+	if err := p.Unpack(&buf, dir); err != nil {
+		childFail("warm packer: unpack: " + err.Error())
+	}
+	if _, err := p.Pack(dir, io.Discard); err != nil {
+		childFail("warm packer: pack: " + err.Error())
+	}
+	return p
 }
 
 // ---------- generators ----------
@@ -691,7 +735,7 @@ func runUnpackCase(c *UnpackCase, work string) (*UnpackObs, []Violation) {
 	obs := &UnpackObs{}
 	obs.Decoded, _ = decodeSlug(slugBytes)
 	obs.Before = snapshot(R)
-	resp := runChild(&ChildReq{Op: "unpack", Root: R, Uid: c.Uid, Dst: c.Dst, Slug: slugBytes, FailAt: c.FailAt, Trunc: c.Trunc}, 20*time.Second)
+	resp := runChild(&ChildReq{Op: "unpack", Root: R, Uid: c.Uid, Dst: c.Dst, Slug: slugBytes, FailAt: c.FailAt, Trunc: c.Trunc, Reuse: c.Reuse}, 20*time.Second)
 	obs.After = snapshot(R)
 	obs.Err, obs.Illegal, obs.Panic, obs.Timeout, obs.Crashed = resp.Err, resp.Illegal, resp.Panic, resp.Timeout, resp.Crashed
 	var vs []Violation
@@ -861,6 +905,7 @@ func runUnpackStream(o *Opts) {
 		hostile := i%2 == 0
 		c := &UnpackCase{Dst: "/w/dst", Hostile: hostile, Format: rng.Pick([]string{"ustar", "pax", "gnu"}), FailAt: -1}
 		c.Init = genInitTree(rng, hostile)
+		c.Reuse = rng.Chance(30)
 		if hostile {
 			c.Entries = genHostileEntries(rng)
 		} else {
